@@ -693,6 +693,130 @@ fn fn_item_steps<T: Clone + PartialEq + std::fmt::Debug + Default>(tname: &str, 
     }
 }
 
+/// The alternatives / continuations as closures that capture a large value by move (the size of the
+/// callable must not matter either), for one payload type.
+fn big_closure_steps(report: &mut Report) {
+    use std::cell::Cell;
+    let big = [7u64; 24]; // 192 bytes, captured by value below
+    let mut check = |what: String, ok: bool, detail: String| {
+        report.evaluations += 1;
+        report.transitions += 1;
+        report.nontrivial += 1;
+        if !ok {
+            report.violation("combinator/large-callable".to_string(), format!("callables capturing 192 bytes: {what}: {detail}"), json!({"property": "C15", "payload": "large-callable", "what": what}), 1);
+        }
+    };
+    let cases: Vec<P> = vec![Fallthrough, Res(Ok(3)), Res(Err(7))];
+    let show = |p: &P| match p {
+        Fallthrough => "F".to_string(),
+        Res(Ok(v)) => format!("Ok({v})"),
+        Res(Err(e)) => format!("Err({e})"),
+    };
+    let same = |a: &P, b: &P| show(a) == show(b);
+    let clone = |p: &P| -> P {
+        match p {
+            Fallthrough => Fallthrough,
+            Res(Ok(v)) => Res(Ok(*v)),
+            Res(Err(e)) => Res(Err(*e)),
+        }
+    };
+    for init in &cases {
+        let (is_f, is_ok, is_err) = (matches!(init, Fallthrough), matches!(init, Res(Ok(_))), matches!(init, Res(Err(_))));
+        let n = Cell::new(0u32);
+        let nr = &n;
+        let got = clone(init).or_parse(move || {
+            nr.set(nr.get() + 1);
+            Res(Ok(big[3] as i64))
+        });
+        let want: P = if is_f { Res(Ok(7)) } else { clone(init) };
+        check(format!("{}.or_parse(large closure)", show(init)), same(&got, &want), format!("got {}", show(&got)));
+        let n = Cell::new(0u32);
+        let nr = &n;
+        let got = clone(init).or_parse(move || {
+            nr.set(nr.get() + big.len() as u32);
+            Res(Err(9))
+        });
+        check(format!("{}.or_parse(large closure -> Err)", show(init)), same(&got, &if is_f { Res(Err(9)) } else { clone(init) }) && (n.get() > 0) == is_f, format!("got {} with {} call(s)", show(&got), n.get() / 24));
+        let n = Cell::new(0u32);
+        let nr = &n;
+        let got = clone(init).or_always_parse(move || {
+            nr.set(nr.get() + big.len() as u32);
+            Err(9)
+        });
+        let want: R = match init {
+            Fallthrough => Err(9),
+            Res(r) => *r,
+        };
+        check(format!("{}.or_always_parse(large closure)", show(init)), got == want && (n.get() > 0) == is_f, format!("got {got:?}"));
+        let n = Cell::new(0u32);
+        let nr = &n;
+        let got = clone(init).or_give_up(move || {
+            nr.set(nr.get() + 1);
+            big[1] as i64
+        });
+        let want: R = match init {
+            Fallthrough => Err(7),
+            Res(r) => *r,
+        };
+        check(format!("{}.or_give_up(large closure)", show(init)), got == want && (n.get() > 0) == is_f, format!("got {got:?}"));
+        let n = Cell::new(0u32);
+        let nr = &n;
+        let got = clone(init).and_then(move |v| {
+            nr.set(nr.get() + 1);
+            if big[0] == 7 { Err(v + 6) } else { Ok(v) }
+        });
+        check(format!("{}.and_then(large closure -> Err)", show(init)), same(&got, &if is_ok { Res(Err(9)) } else { clone(init) }) && (n.get() > 0) == is_ok, format!("got {}", show(&got)));
+        let n = Cell::new(0u32);
+        let nr = &n;
+        let got = clone(init).and_also(move |_v| {
+            nr.set(nr.get() + 1);
+            if big[0] == 7 { Err(9) } else { Ok(()) }
+        });
+        check(format!("{}.and_also(large closure -> Err)", show(init)), same(&got, &if is_ok { Res(Err(9)) } else { clone(init) }) && (n.get() > 0) == is_ok, format!("got {}", show(&got)));
+        let n = Cell::new(0u32);
+        let nr = &n;
+        let got = clone(init).and_do(move |v| {
+            nr.set(nr.get() + 1);
+            *v += big[2] as i64;
+        });
+        check(format!("{}.and_do(large closure)", show(init)), same(&got, &if is_ok { Res(Ok(10)) } else { clone(init) }) && (n.get() > 0) == is_ok, format!("got {}", show(&got)));
+        let n = Cell::new(0u32);
+        let nr = &n;
+        let got = clone(init).map(move |v| {
+            nr.set(nr.get() + 1);
+            v + big[2] as i64
+        });
+        check(format!("{}.map(large closure)", show(init)), same(&got, &if is_ok { Res(Ok(10)) } else { clone(init) }) && (n.get() > 0) == is_ok, format!("got {}", show(&got)));
+        let n = Cell::new(0u32);
+        let nr = &n;
+        let got = clone(init).map_err(move |e| {
+            nr.set(nr.get() + 1);
+            e + big[2] as i64
+        });
+        check(format!("{}.map_err(large closure)", show(init)), same(&got, &if is_err { Res(Err(14)) } else { clone(init) }) && (n.get() > 0) == is_err, format!("got {}", show(&got)));
+    }
+}
+
+/// Runs a table while the thread is unwinding from an unrelated panic (inside a `Drop`): the
+/// combinators must behave the same (`std::thread::panicking()` is true there).
+fn tables_while_unwinding(report: &mut Report) {
+    struct InDrop<'a>(&'a std::cell::RefCell<Report>);
+    impl Drop for InDrop<'_> {
+        fn drop(&mut self) {
+            let mut r = self.0.borrow_mut();
+            single_steps::<u8>(&|| 200u8, "u8-while-unwinding", &mut r);
+            fn_item_steps::<String>("String-while-unwinding", &mut r);
+            big_closure_steps(&mut r);
+        }
+    }
+    let cell = std::cell::RefCell::new(Report::new());
+    let _ = std::panic::catch_unwind(std::panic::AssertUnwindSafe(|| {
+        let _g = InDrop(&cell);
+        panic!("unrelated panic (harness)");
+    }));
+    report.merge(cell.into_inner());
+}
+
 /// Single-step table for an arbitrary payload type (the combinators are generic: the payload type -
 /// zero sized, one byte, heap allocated - must not matter): every method once per input case and
 /// closure outcome, with invocation counts.
@@ -921,6 +1045,9 @@ pub fn run(tier: Tier, report: &mut Report) {
     fn_item_steps::<u8>("u8", report);
     fn_item_steps::<String>("String", report);
     fn_item_steps::<[u64; 32]>("256-bytes", report);
+    big_closure_steps(report);
+    tables_while_unwinding(report);
+    report.completed.push("closures capturing 192 bytes by value as alternatives / continuations; the tables once more inside a Drop while the thread unwinds from an unrelated panic".to_string());
     report.completed.push("the same table with zero sized callables (function items, invocations counted through a thread local) for the payload types (), u8, String, [u64; 32]; payloads of 256 and 320 bytes in the closure-driven table".to_string());
     report.completed.push("single-step table of every method x input case x closure outcome for the payload types (), [u64; 0], u8, String, Vec<u128>, Option<Box<i64>>".to_string());
     report.completed.push(format!(
@@ -945,6 +1072,8 @@ pub fn replay(v: &Value) -> (bool, String) {
         fn_item_steps::<u8>("u8", &mut r);
         fn_item_steps::<String>("String", &mut r);
         fn_item_steps::<[u64; 32]>("256-bytes", &mut r);
+        big_closure_steps(&mut r);
+        tables_while_unwinding(&mut r);
         let text: String = r.violations.values().map(|x| format!("  {}\n", x.what)).collect();
         return (r.violation_count > 0, format!("single-step table over the payload types: {} deviation(s)\n{text}", r.violation_count));
     }
